@@ -422,6 +422,20 @@ impl Cat {
 
 pub const CTAGS: &[&str] = &["allow.skipped", "a", "b", "serial", "allow.skipped2", "skipped"];
 
+/// like `gen_catalog_specs`, plus (1 in 5) a TWIN: a second feature with exactly the same contents
+/// (name, tags, scenarios, positions) but its own identity — `Source` equality is identity, so the
+/// writers must keep the two apart
+pub fn gen_catalog_specs_twins(rng: &mut Rng, max_feats: usize) -> Vec<FeatSpec> {
+    let mut v = gen_catalog_specs(rng, max_feats);
+    if rng.chance(1, 5) {
+        let i = rng.below(v.len());
+        let mut twin = v[i].clone();
+        twin.id = v.iter().map(|f| f.id).max().unwrap_or(0) + 1000;
+        v.push(twin);
+    }
+    v
+}
+
 pub fn gen_catalog_specs(rng: &mut Rng, max_feats: usize) -> Vec<FeatSpec> {
     let mut next = 0usize;
     let mut fresh = || {
